@@ -1,263 +1,5 @@
-import TxV.Model.Transformers
-open TxV TxV.Proto TxV.Transformers
+import TxV.Model.TransformersProto
+open TxV TxV.Proto TxV.TransformersProto
 
-/-!
-Line protocol for C18 (one output line per input line).
-
-```
-cfg comp=map w=4 ifun=add:3 ofun=rot:1                  cyc call=1 trdy=1 tret=3      → m=9 t=4
-cfg comp=filter w=4 cond=bit:0 def=9 uc=0               cyc call=1 trdy=1 tret=5      → m=5 t=1
-cfg comp=product w=4 n=3 comb=add                       cyc call=2 trdy=111 tret=1,2,4 → m=7 t=2,2,2
-cfg comp=tryproduct w=4 n=3 comb=both                   cyc call=2 trdy=101 tret=1,2,4 → m=45 t=2,-,2
-cfg comp=nonex w=4 k=3                                  cyc calls=3,-,5 trdy=1 tret=7 → c=7,-,7 t=7
-cfg comp=connect wi=3 wo=4                              cyc r1=1 r2=1 d1=13 d2=5      → m1=5 m2=13
-cfg comp=crossbar n1=2 n2=2 wi=3 wo=4 order=0,1,2,3     cyc r1=11 r2=11 d1=13,14 d2=5,6 → run=1001 m1=5,6 m2=13,14
-cfg comp=collector n=3 w=4 order=0,1,2                  cyc trdy=011 tret=1,2,3 rd=0  → t=010 rd=-
-```
-With competing callers of the targets (filter/product/tryproduct/collector): the cfg carries
-`cf=<bits>` (per target: the competitor precedes the transformer's transaction in the real
-priority order), every op `catt=<v|->,…` (attempted competitor calls); the answer gets
-` c=<bits>` (competitor executed) and `t=` is what the target received from whoever called it
-(collector: `t=` = targets called by the collector).
-`order` lists pair indices `i*n2+j` (crossbar) / target indices (collector) in the scheduling
-order read from the real manager; it must be a permutation of all of them (`bad-cfg` otherwise).
--/
-
-def splitCode (s : String) : String × Nat :=
-  match s.splitOn ":" with
-  | [n, k] => (n, k.toNat?.getD 0)
-  | [n] => (n, 0)
-  | _ => ("?", 0)
-
-/-- unary function family on `w`-bit data -/
-def unFun (w : Nat) (code : String) : Option (Nat → Nat) :=
-  let (n, k) := splitCode code
-  match n with
-  | "id" => some fun x => x % 2 ^ w
-  | "add" => some fun x => (x + k) % 2 ^ w
-  | "xor" => some fun x => (x ^^^ k) % 2 ^ w
-  | "mul" => some fun x => (x * k) % 2 ^ w
-  | "rot" => some fun x =>
-      let h := if w = 0 then 0 else k % w
-      ((x >>> h) ||| ((x % 2 ^ h) <<< (w - h))) % 2 ^ w
-  | _ => none
-
-/-- condition family: the *value* returned by the condition function -/
-def condFun (code : String) : Option (Nat → Nat) :=
-  let (n, k) := splitCode code
-  match n with
-  | "bit" => some fun x => (x >>> k) % 2
-  | "lt" => some fun x => if x < k then 1 else 0
-  | "eq" => some fun x => if x = k then 1 else 0
-  | "and" => some fun x => x &&& k
-  | "true" => some fun _ => 1
-  | "false" => some fun _ => 0
-  | _ => none
-
-def combFun (w : Nat) (code : String) : Option (List Nat → Nat) :=
-  match code with
-  | "first" => some fun l => l.headD 0
-  | "last" => some fun l => l.getLastD 0
-  | "add" => some fun l => l.foldl (· + ·) 0 % 2 ^ w
-  | "xor" => some fun l => l.foldl (· ^^^ ·) 0
-  | _ => none
-
-def succBits : List (Bool × Nat) → Nat
-  | [] => 0
-  | (s, _) :: r => s.toNat + 2 * succBits r
-
-def tcombFun (w n : Nat) (code : String) : Option (List (Bool × Nat) → Nat) :=
-  let msum := fun (l : List (Bool × Nat)) => (l.foldl (fun a (p : Bool × Nat) => if p.1 then a + p.2 else a) 0) % 2 ^ w
-  match code with
-  | "none" => some fun _ => 0
-  | "bits" => some succBits
-  | "msum" => some msum
-  | "rsum" => some fun l => (l.foldl (fun a p => a + p.2) 0) % 2 ^ w
-  | "both" => some fun l => succBits l ||| (msum l <<< n)
-  | _ => none
-
-inductive Cfg
-  | none
-  | map (ifun ofun : Nat → Nat)
-  | filter (uc : Bool) (cond : Nat → Nat) (dflt : Nat) (cf : Option (List Bool))
-  | product (n : Nat) (comb : List Nat → Nat) (cf : Option (List Bool))
-  | tryproduct (n : Nat) (comb : List (Bool × Nat) → Nat) (cf : Option (List Bool))
-  | nonex (k : Nat)
-  | connect
-  | crossbar (n1 n2 : Nat) (order : List (Nat × Nat))
-  | collector (n : Nat) (order : List Nat) (cf : Option (List Bool)) (s : CState)
-
-def isPerm (l : List Nat) (n : Nat) : Bool :=
-  l.length == n && (List.range n).all (fun k => l.contains k)
-
-def bits? (s : String) : Option (List Bool) :=
-  s.toList.mapM fun c => if c == '1' then some true else if c == '0' then some false else none
-
-def bitsOf (t : List String) (key : String) : Option (List Bool) := (kv? t key).bind bits?
-
-def optList? (s : String) : Option (List (Option Nat)) :=
-  (s.splitOn ",").mapM fun x => if x == "-" then some none else x.toNat?.map some
-
-def natList? (s : String) : Option (List Nat) :=
-  if s == "-" || s == "" then some [] else (s.splitOn ",").mapM String.toNat?
-
-def natsOf (t : List String) (key : String) : Option (List Nat) := (kv? t key).bind natList?
-
-/-- `call=-` ↦ some none; `call=5` ↦ some (some 5); missing/garbled ↦ none -/
-def callOf (t : List String) (key : String) : Option (Option Nat) :=
-  match kv? t key with
-  | some "-" => some none
-  | some v => v.toNat?.map some
-  | none => none
-
-def showOptList (l : List (Option Nat)) : String := ",".intercalate (l.map showOpt)
-def showBits (l : List Bool) : String := String.join (l.map showBool)
-
-/-- optional `cf=<bits>`: per target, does its competing caller precede the transformer's transaction?
-    `some none` = no competitors; `none` = garbled or wrong length -/
-def cfOf (t : List String) (n : Nat) : Option (Option (List Bool)) :=
-  match kv? t "cf" with
-  | none => some none
-  | some v => match bits? v with
-    | some b => if b.length == n then some (some b) else none
-    | none => none
-
-/-- competitors of a cycle: with `cf`, the op line must carry `catt=<v|->,…` of the right length -/
-def compsOf (t : List String) (n : Nat) (cf : Option (List Bool)) : Option (List CompIn) :=
-  match cf with
-  | none => some ((List.replicate n false).map fun f => { first := f, att := none })
-  | some fs => do
-    let a ← (kv? t "catt").bind optList?
-    if a.length != n then none else pure ((fs.zip a).map fun x => { first := x.1, att := x.2 })
-
-def compSuffix (cf : Option (List Bool)) (cd : List Bool) : String :=
-  match cf with
-  | none => ""
-  | some _ => s!" c={showBits cd}"
-
-def parseCfg (t : List String) : Option Cfg := do
-  let comp ← kv? t "comp"
-  match comp with
-  | "map" =>
-    let w ← nat? t "w"
-    let f ← (kv? t "ifun").bind (unFun w)
-    let g ← (kv? t "ofun").bind (unFun w)
-    pure (Cfg.map f g)
-  | "filter" =>
-    let c ← (kv? t "cond").bind condFun
-    let d ← nat? t "def"
-    let uc ← nat? t "uc"
-    let cf ← cfOf t 1
-    pure (Cfg.filter (uc == 1) c d cf)
-  | "product" =>
-    let w ← nat? t "w"
-    let n ← nat? t "n"
-    let c ← (kv? t "comb").bind (combFun w)
-    let cf ← cfOf t n
-    if n = 0 then none else pure (Cfg.product n c cf)
-  | "tryproduct" =>
-    let w ← nat? t "w"
-    let n ← nat? t "n"
-    let c ← (kv? t "comb").bind (tcombFun w n)
-    let cf ← cfOf t n
-    pure (Cfg.tryproduct n c cf)
-  | "nonex" =>
-    let k ← nat? t "k"
-    pure (Cfg.nonex k)
-  | "connect" => pure Cfg.connect
-  | "crossbar" =>
-    let n1 ← nat? t "n1"
-    let n2 ← nat? t "n2"
-    let o ← natsOf t "order"
-    if n2 = 0 || !isPerm o (n1 * n2) then none
-    else pure (Cfg.crossbar n1 n2 (o.map fun x => (x / n2, x % n2)))
-  | "collector" =>
-    let n ← nat? t "n"
-    let o ← natsOf t "order"
-    let cf ← cfOf t n
-    if !isPerm o n then none else pure (Cfg.collector n o cf cInit)
-  | _ => none
-
-def uIn? (t : List String) : Option UIn := do
-  let c ← callOf t "call"
-  let r ← nat? t "trdy"
-  let v ← nat? t "tret"
-  if r > 1 then none else pure { call := c, trdy := r == 1, tret := v }
-
-def tgts? (t : List String) (n : Nat) (kr kd : String) : Option (List (Bool × Nat)) := do
-  let r ← bitsOf t kr
-  let v ← natsOf t kd
-  if r.length == n && v.length == n then pure (r.zip v) else none
-
-def stepCyc (c : Cfg) (t : List String) : Option (Cfg × String) :=
-  match c with
-  | .none => none
-  | .map f g => do
-    let i ← uIn? t
-    let o := mapStep f g i
-    pure (c, s!"m={showOpt o.res} t={showOpt o.tcall}")
-  | .filter uc cond d cf => do
-    let i ← uIn? t
-    let cs ← compsOf t 1 cf
-    let cp ← cs.head?
-    let o := filterCompStep uc cond d i cp
-    pure (c, s!"m={showOpt o.res} t={showOpt o.seen}{compSuffix cf [o.comp]}")
-  | .product n comb cf => do
-    let call ← callOf t "call"
-    let tg ← tgts? t n "trdy" "tret"
-    let cs ← compsOf t n cf
-    let o := withComps (productStep comb) { call := call, tgts := tg } cs
-    pure (c, s!"m={showOpt o.res} t={showOptList o.seen}{compSuffix cf o.comp}")
-  | .tryproduct n comb cf => do
-    let call ← callOf t "call"
-    let tg ← tgts? t n "trdy" "tret"
-    let cs ← compsOf t n cf
-    let o := withComps (tryProductStep comb) { call := call, tgts := tg } cs
-    pure (c, s!"m={showOpt o.res} t={showOptList o.seen}{compSuffix cf o.comp}")
-  | .nonex k => do
-    let calls ← (kv? t "calls").bind optList?
-    let r ← nat? t "trdy"
-    let v ← nat? t "tret"
-    if calls.length != k || r > 1 then none else
-    let o := nonexStep { calls := calls, trdy := r == 1, tret := v }
-    pure (c, s!"c={showOptList o.res} t={showOpt o.tcall}")
-  | .connect => do
-    let r1 ← nat? t "r1"
-    let r2 ← nat? t "r2"
-    let d1 ← nat? t "d1"
-    let d2 ← nat? t "d2"
-    if r1 > 1 || r2 > 1 then none else
-    let o := connect { r1 := r1 == 1, r2 := r2 == 1, d1 := d1, d2 := d2 }
-    pure (c, s!"m1={showOpt o.m1} m2={showOpt o.m2}")
-  | .crossbar n1 n2 order => do
-    let t1 ← tgts? t n1 "r1" "d1"
-    let t2 ← tgts? t n2 "r2" "d2"
-    let i : XIn := { t1 := t1, t2 := t2 }
-    let run := running order i
-    let runBits := (List.range (n1 * n2)).map fun x => run.contains (x / n2, x % n2)
-    let a1 := (List.range n1).map (xArg1 order i)
-    let a2 := (List.range n2).map (xArg2 order i)
-    pure (c, s!"run={showBits runBits} m1={showOptList a1} m2={showOptList a2}")
-  | .collector n order cf s => do
-    let tg ← tgts? t n "trdy" "tret"
-    let rd ← nat? t "rd"
-    let cs ← compsOf t n cf
-    if rd > 1 then none else
-    let (s', o, cd) := collectorCompStep order s { tgts := tg, rd := rd == 1 } cs
-    let called := (List.range n).map fun k => (o.called.map (·.1)) == some k
-    pure (Cfg.collector n order cf s', s!"t={showBits called} rd={showOpt o.rd}{compSuffix cf cd}")
-
-def stepLine (c : Cfg) (line : String) : Cfg × String :=
-  let t := tokens line
-  match t.head? with
-  | some "cfg" =>
-    match parseCfg t with
-    | some c' => (c', "ok")
-    | none => (Cfg.none, "bad-cfg")
-  | some "cyc" =>
-    match stepCyc c t with
-    | some r => r
-    | none => (c, "bad-op")
-  | _ => (c, "bad-op")
-
+/-- C18 driver: protocol documented in `TxV/Model/TransformersProto.lean` -/
 def main : IO Unit := Proto.run Cfg.none stepLine
